@@ -11,7 +11,8 @@ VARIABLES first, done
 Init == first \in 0..Len(Reps) /\ done = FALSE
 Next == ~done /\ done' = TRUE /\ first' = first
 Mine == IF first = 0 THEN {<<>>} ELSE Strs(<<Reps[first]>>, MaxLen - 1)
-WordLaw == \A s \in Mine : Safe(s, Encode(s))
-AssignLaw == \A s \in Mine : SafeAssignment(<<118>>, s, <<118, 61>> \o QuoteValue(s))
-NameLaw == \A s \in Mine : ValidName(VarName(s, TRUE)) /\ ValidName(<<97, 95>> \o VarName(s, FALSE))
+\* the laws are evaluated on the successor states only (TLC evaluates the invariants of initial states in one thread)
+WordLaw == done => \A s \in Mine : Safe(s, Encode(s))
+AssignLaw == done => \A s \in Mine : SafeAssignment(<<118>>, s, <<118, 61>> \o QuoteValue(s))
+NameLaw == done => \A s \in Mine : ValidName(VarName(s, TRUE)) /\ ValidName(<<97, 95>> \o VarName(s, FALSE))
 =============================================================================
